@@ -1255,7 +1255,6 @@ Stylesheet::findTemplate(
 
                 const XalanMatchPatternData**   conflicts = 0;
 
-                const XalanDOMString*           prevPat = 0;
                 const XalanMatchPatternData*    prevMatchPat = 0;
 
                 do
@@ -1284,12 +1283,13 @@ Stylesheet::findTemplate(
                         const XalanDOMString*   patterns = matchPat->getPattern();
                         assert(patterns != 0);
 
+                        // Entries of the same template are the alternatives of
+                        // its union pattern: they share the match expression, so
+                        // it is evaluated only once.
                         if(!patterns->empty() &&
                            !(prevMatchPat != 0 &&
-                             (prevPat != 0 && equals(*prevPat, *patterns)) &&
-                             prevMatchPat->getTemplate()->getPriority() == matchPat->getTemplate()->getPriority()))
+                             prevMatchPat->getTemplate() == matchPat->getTemplate()))
                         {
-                            prevPat = patterns;
                             prevMatchPat = matchPat;
                             matchPatPriority = matchScoreNoneValue;
 
